@@ -134,10 +134,14 @@ func vWRRExec(cfg []int64, ops [][]int64) ([][]int64, bool, []string) {
 				tags["rr"] = true
 			}
 			obs = append(obs, o)
-		case len(op) >= 1 && op[0] == 3 && (len(op)-1)%2 == 0:
+		case len(op) >= 1 && (op[0] == 3 || op[0] == 8) && (len(op)-1)%2 == 0:
 			p := &picker{cfg: &lbConfig{WeightExpirationPeriod: iserviceconfig.Duration(time.Hour)}, metricsRecorder: rec}
 			for i := 1; i+1 < len(op); i += 2 {
-				e := &endpointWeight{metricsRecorder: rec, cfg: p.cfg, weightVal: vWRRRatio(op[i], op[i+1]), lastUpdated: vWRRT0, nonEmptySince: vWRRT0}
+				wv := vWRRRatio(op[i], op[i+1])
+				if op[0] == 8 {
+					wv = math.Ldexp(float64(op[i]), int(op[i+1])) // mantissa * 2^exp: extreme magnitudes
+				}
+				e := &endpointWeight{metricsRecorder: rec, cfg: p.cfg, weightVal: wv, lastUpdated: vWRRT0, nonEmptySince: vWRRT0}
 				p.weightedPickers = append(p.weightedPickers, pickerWeightedEndpoint{weightedEndpoint: e})
 			}
 			now = vWRRT0.Add(time.Second)
@@ -310,6 +314,32 @@ func vWRRGen(r *vRand, tier string, idx int) ([]int64, [][]int64) {
 			[]int64{5, 22 * sec, 180 * sec, 10 * sec}, []int64{5, 201*sec - 1, 180 * sec, 10 * sec}, []int64{5, 201 * sec, 180 * sec, 10 * sec},
 			[]int64{5, 202 * sec, 1000 * sec, 10 * sec},
 			[]int64{4, 300 * sec, 10, 1, 3, 4, 0, 1, 1, 1, 2, 1}, []int64{5, 305 * sec, 1000 * sec, 10 * sec}, []int64{5, 311 * sec, 1000 * sec, 10 * sec})
+	case idx == 5:
+		// newScheduler with weights of extreme magnitude m*2^e: around the overflow of
+		// 65535/max (max near 2^-1008), subnormal weights, weights near the largest float
+		for _, e := range []int64{-1074, -1070, -1060, -1030, -1022, -1010, -1009, -1008, -1007, -1000, -500, 0, 500, 960, 969, 970} {
+			for _, m := range []int64{1, 3, (1 << 53) - 1, 1 << 52} {
+				ops = append(ops, []int64{8, m, e, 1, e - 1}, []int64{8, m, e, m, e, 1, e - 3}, []int64{8, 1, e, m, e + 1, 0, 0})
+			}
+		}
+	case idx%8 == 6:
+		for i := 0; i < 60; i++ {
+			n := 2 + r.Intn(5)
+			op := []int64{8}
+			base := int64(r.Intn(2040)) - 1074
+			for j := 0; j < n; j++ {
+				m := int64(r.U64() >> 11)
+				if r.Chance(15) {
+					m = 0
+				}
+				e := base + int64(r.Intn(20))
+				if e > 970 {
+					e = 970
+				}
+				op = append(op, m, e)
+			}
+			ops = append(ops, op)
+		}
 	case idx%4 == 1:
 		if tier != "quick" && idx%16 == 1 {
 			n := 1 + r.Intn(3)
